@@ -259,7 +259,8 @@ func c09History(c *caseCtx) {
 	var hist []kept
 	probe := c09Gen(c)
 	first := decide(probe.body(), false)
-	c.count("evaluations", 1)
+	hst0, hb0 := httpInproc("POST", "/api/decide", probe.body())
+	c.count("evaluations", 2)
 	for i := 0; i < n; i++ {
 		g := c09Gen(c)
 		if c.rng.Intn(8) == 0 {
@@ -270,9 +271,17 @@ func c09History(c *caseCtx) {
 		if d.OK {
 			hist = append(hist, kept{g, d.Choice, d.JSON})
 		}
+		if i%2 == 0 { // the same history also passes through the service handler of main.go
+			httpInproc("POST", "/api/decide", g.body())
+		}
 	}
 	again := decide(probe.body(), false)
-	c.count("evaluations", 1)
+	hst1, hb1 := httpInproc("POST", "/api/decide", probe.body())
+	c.count("evaluations", 2)
+	if hst0 != hst1 || (hst0 == 200 && !bytes.Equal(hb0, hb1)) || (first.OK && hst0 == 200 && !bytes.Equal(hb0, first.JSON)) {
+		c.violate("history-dependent", fmt.Sprintf("the service handler's response to a request changed after %d other requests (or differs from the library's)", n), M{"request": probe.M, "history_length": n, "before": string(hb0), "after": string(hb1)})
+		return
+	}
 	if first.OK != again.OK || (first.OK && !bytes.Equal(first.JSON, again.JSON)) {
 		c.violate("history-dependent", fmt.Sprintf("the response to a request changed after %d other requests", n), M{"request": probe.M, "history_length": n})
 		return
